@@ -151,7 +151,7 @@ func sampledOffsets(g *vf.Rng) []uint32 {
 // interleavedWithLibrary: between loads of cartridge images of every kind, a sampled sweep of all
 // four mappers is judged by check (the property's own per-address oracle).
 func interleavedWithLibrary(r *vf.Run, check func(m *mapper, a uint32, cells map[string]int64)) {
-	if !r.Phase("interleaved-with-library") {
+	if os.Getenv("VERIF_CHILD") != "" || !r.Phase("interleaved-with-library") {
 		return
 	}
 	g := r.Rand("interleaved")
@@ -225,13 +225,13 @@ func usedAtInitTime(r *vf.Run) {
 	}
 }
 
-// callVolume: more than 2^31 (and in all more than 2^32) calls in one process, most of them ending in
+// callVolume: more than 2^31 calls in one process, all of them ending in
 // "unmapped", spread over the eight functions: whatever a process-wide counter, ring or statistic may
 // do at the limits of its integer type, the answers stay the same. check judges sampled addresses
 // before, in between and after.
 func callVolume(r *vf.Run, check func(m *mapper, a uint32)) {
-	if os.Getenv("VERIF_CHILD") != "" && runtime.GOARCH != "386" {
-		return // (the main process and its 32-bit child do it; the other children skip it)
+	if os.Getenv("VERIF_CHILD") != "" {
+		return // (the main process does it; child processes skip it)
 	}
 	if !r.Phase("call-volume") {
 		return
@@ -254,7 +254,7 @@ func callVolume(r *vf.Run, check func(m *mapper, a uint32)) {
 		r.Cell("call-volume:" + tag)
 	}
 	sample("before")
-	for round := 0; round < 10 && r.Violations() == 0; round++ { // 10 x 2 x 2^28 = 5.4e9 calls
+	for round := 0; round < 5 && r.Violations() == 0; round++ { // 5 x 2 x 2^28 = 2.7e9 calls, all of them "unmapped" results
 		m := &mappers[round%len(mappers)]
 		r.Parallel(workers, workers, func(w, wi int) {
 			per := perRound / workers
@@ -274,7 +274,7 @@ func callVolume(r *vf.Run, check func(m *mapper, a uint32)) {
 			}
 		})
 		total += 2 * perRound
-		if round == 4 || round == 8 {
+		if round == 2 || round == 3 {
 			sample(fmt.Sprintf("after-%d-million-calls", total>>20))
 		}
 	}
